@@ -20,10 +20,14 @@
 (*  A2 an array length difference is the tail from min(len) on; it counts as reported by   *)
 (*     one path at any tail index at or before the member, or by a path above it.          *)
 (*  A3 a returned path is sound when a truth member lies at, below or above it.            *)
-(*  A4 completeness is not demanded for a truth member that an ignore path covers or       *)
-(*     reaches into (an ignore path that continues below the member).                      *)
-(*  A5 nothing is demanded about returning differences an ignore path covers (the          *)
-(*     statement only says uncovered ones must be returned).                               *)
+(*  A4 an ignore path ignores the location it names segment by segment (nil = any single    *)
+(*     segment) and everything below it ("Any ignore paths are ignored in the comparison").   *)
+(*     Completeness is not demanded for a truth member that an ignore path covers; nor for a  *)
+(*     member that differs in kind or presence of a CONTAINER when an ignore path names an    *)
+(*     existing descendant of it (all its leaves may be covered).  An ignore path that        *)
+(*     continues below a scalar names nothing: the scalar difference must be reported.        *)
+(*  A5 (removed) a returned path that an ignore path covers contradicts the doc comment of    *)
+(*     alt.Diff and is a deviation (ignored-path-returned).                                   *)
 (*  A6 the root difference is returned by the code as the path [nil]; it is read as the    *)
 (*     empty path.                                                                         *)
 (*  A7 Match: a target array longer than the fingerprint array, fingerprint null elements   *)
@@ -145,8 +149,29 @@ Reported(T, D) == \E P \in D :
     \/ /\ T.lo >= 0 /\ Len(P) = Len(T.p) /\ Prefix(Front(P), T.p)                  \* A2
        /\ Last(P).t = "i" /\ Last(P).v >= T.lo /\ Last(P).v <= Last(T.p).v
 
-Excused(T, igs) == \E g \in igs : Covers(g, T.p) \/ Touches(g, T.p)                \* A4
-Missed(truth, D, igs) == {T \in truth : T.c = "must" /\ ~Excused(T, igs) /\ ~Reported(T, D)}
+RECURSIVE AtOpt(_, _)
+AtOpt(x, p) == IF p = <<>> THEN x
+               ELSE LET h == Head(p) IN
+                    IF x.t = "arr" /\ h.t = "i" THEN (IF h.v >= 0 /\ h.v < Len(x.v) THEN AtOpt(x.v[h.v + 1], Tail(p)) ELSE Absent)
+                    ELSE IF x.t = "obj" /\ h.t = "k" THEN (IF HasKey(x, h.v) THEN AtOpt(Member(x, h.v), Tail(p)) ELSE Absent)
+                    ELSE Absent
+
+\* the ignore path g (longer than L and matching it) names an existing descendant of L in tree x
+Named(g, L, x) ==
+   LET RECURSIVE Walk(_, _)
+       Walk(n, j) == IF j = Len(g) THEN TRUE
+                     ELSE LET sg == g[j + 1] IN
+                          IF n.t = "arr" THEN (IF sg.t = "w" THEN \E e \in 1..Len(n.v) : Walk(n.v[e], j + 1)
+                                               ELSE sg.t = "i" /\ sg.v >= 0 /\ sg.v < Len(n.v) /\ Walk(n.v[sg.v + 1], j + 1))
+                          ELSE IF n.t = "obj" THEN (IF sg.t = "w" THEN \E e \in 1..Len(n.v) : Walk(n.v[e], j + 1)
+                                                    ELSE sg.t = "k" /\ HasKey(n, sg.v) /\ Walk(Member(n, sg.v), j + 1))
+                          ELSE FALSE
+       n0 == AtOpt(x, L) IN
+   n0.t # "absent" /\ Walk(n0, Len(L))
+Excused(T, igs, x, y) == \E g \in igs : Covers(g, T.p) \/ (Touches(g, T.p) /\ (Named(g, T.p, x) \/ Named(g, T.p, y)))     \* A4
+Missed(truth, D, igs, x, y) == {T \in truth : T.c = "must" /\ ~Excused(T, igs, x, y) /\ ~Reported(T, D)}
+\* returned although an ignore path covers it
+IgnoredReturned(D, igs) == {P \in D : \E g \in igs : Covers(g, P)}
 Spurious(truth, D)    == {P \in D : ~\E T \in truth : Comparable(P, T.p)}           \* A3
 \* cmp: <<>> for nil, <<path>> otherwise
 CompareBad(cmp, D) == IF cmp = <<>> THEN D # {} ELSE NormP(cmp[1]) \notin D
@@ -171,13 +196,6 @@ Match3(f, t) ==
 
 -----------------------------------------------------------------------------
 (* judging one observation; the locus names the relation that failed and where *)
-RECURSIVE AtOpt(_, _)
-AtOpt(x, p) == IF p = <<>> THEN x
-               ELSE LET h == Head(p) IN
-                    IF x.t = "arr" /\ h.t = "i" THEN (IF h.v >= 0 /\ h.v < Len(x.v) THEN AtOpt(x.v[h.v + 1], Tail(p)) ELSE Absent)
-                    ELSE IF x.t = "obj" /\ h.t = "k" THEN (IF HasKey(x, h.v) THEN AtOpt(Member(x, h.v), Tail(p)) ELSE Absent)
-                    ELSE Absent
-
 \* ignore path g would cover L if some of its index components were L's: the ignore of a sibling element.
 \* DiffPos = the positions where g does not match L; the relation only counts when all of them are index-vs-index.
 DiffPos(g, L) == {i \in 1..Len(g) : ~CompMatch(g[i], L[i])}
@@ -211,10 +229,17 @@ SeqSet(s) == {s[j] : j \in 1..Len(s)}
 JudgeObs(x, y, igs, o, tr) ==
    IF o.pan THEN <<[kind |-> "panic", loc |-> <<"panic">>]>> ELSE
    LET D  == {NormP(P) : P \in SeqSet(o.d)}
-       ms == Missed(tr, D, igs)
+       ms == Missed(tr, D, igs, x, y)
+       ir == IgnoredReturned(D, igs)
        sp == Spurious(tr, D) IN
    (IF ms # {} THEN <<[kind |-> "missed-difference", loc |-> MissLoc(CHOOSE T \in ms : TRUE, x, y, igs)]>> ELSE <<>>)
    \o (IF sp # {} THEN <<[kind |-> "spurious-path", loc |-> SpurLoc(CHOOSE P \in sp : TRUE, x, y, igs)]>> ELSE <<>>)
+   \o (IF ir \ sp # {}
+       THEN LET P == CHOOSE P \in ir \ sp : TRUE IN
+            <<[kind |-> "ignored-path-returned",
+               loc |-> <<IF AtOpt(x, P).t = "absent" \/ AtOpt(y, P).t = "absent" THEN "one-side-only" ELSE "both-sides",
+                         IF Last(P).t = "i" THEN "index" ELSE "key">>]>>
+       ELSE <<>>)
    \o (IF CompareBad(o.c, D)
        THEN <<[kind |-> "compare-mismatch",
                loc |-> <<IF o.c = <<>> THEN "nil-but-diff-nonempty" ELSE IF D = {} THEN "path-but-diff-empty" ELSE "path-not-in-diff",
@@ -325,6 +350,8 @@ IgnSets(x, y) == LET C == IgnCand(x, y)
                      deep == {P \in C : Len(P) >= 2}
                      flat == {P \in C : Len(P) = 1} IN
                  {{}} \cup {{P} : P \in C}
+                 \* a trailing wildcard below every location: covers the children of a container, nothing of a scalar
+                 \cup {{Append(P, Wild)} : P \in (Locs(x, <<>>) \cup Locs(y, <<>>)) \ {<<>>}}
                  \cup {{P, Q} : P \in deep, Q \in deep}
                  \cup {{P, Q} : P \in flat, Q \in flat}
                  \cup {{P, Q} : P \in flat, Q \in deep}
@@ -343,11 +370,11 @@ TruthSym == phase = "pert" => TruthNow = Truth(b, a, <<>>)
 \* the reference Diff satisfies every relation for every offered ignore set: the relations are satisfiable
 RefOK == phase = "pert" =>
            \A igs \in IgnSets(a, b) : LET D == RefDiff(a, b, igs, <<>>, FALSE) IN
-               /\ Missed(TruthNow, D, igs) = {} /\ Spurious(TruthNow, D) = {}
-               /\ Missed(TruthNow, RefDiff(b, a, igs, <<>>, FALSE), igs) = {}
+               /\ Missed(TruthNow, D, igs, a, b) = {} /\ Spurious(TruthNow, D) = {} /\ IgnoredReturned(D, igs) = {}
+               /\ Missed(TruthNow, RefDiff(b, a, igs, <<>>, FALSE), igs, b, a) = {}
 \* ... and a Diff that applies child ignores of one index to every index does not (must be violated)
 BugOK == phase = "pert" =>
-           \A igs \in IgnSets(a, b) : Missed(TruthNow, RefDiff(a, b, igs, <<>>, TRUE), igs) = {}
+           \A igs \in IgnSets(a, b) : Missed(TruthNow, RefDiff(a, b, igs, <<>>, TRUE), igs, a, b) = {}
 MatchLaws == phase = "pert" =>
            /\ Match3(a, a) = "T"
            /\ (Match3(a, b) = "T" /\ Match3(b, a) = "T") => Musts(TruthNow) = {}
